@@ -52,6 +52,9 @@ pub fn dat_bytes(d: u8) -> Vec<u8> {
         4 => vec![7, 7],
         5 => vec![0x11, 0x22, 0x33],
         6 => vec![0xC0, 0xC1, 0xC2, 0xC3, 0xC4, 0xC5, 0xC6, 0xC7, 0xC8, 0xC9, 0xCA, 0xCB, 0xCC, 0xCD, 0xCE, 0xCF, 0xD0],
+        // pairs that differ only by a trailing 00 byte: 200+k = [k+1], 220+k = [k+1, 00]
+        n @ 200..=219 => vec![n - 199],
+        n @ 220..=239 => vec![n - 219, 0],
         // per-vertex distinct data for the tree enumerators: inline and heap
         n @ 100..=149 => vec![n; 3],
         n @ 150..=199 => vec![n; 9],
